@@ -4,6 +4,9 @@ def run(tier, a=None):
     for vm in (0, 1, 2):
         specs.append({'src': 'h_c13.cpp', 'defs': ['VALID_MODE=%d' % vm], 'mode': 'symdbg', 'filter': 'c13_valid.*', 'label': 'valid-debug-%d' % vm})
         specs.append({'src': 'h_c13.cpp', 'defs': ['VALID_MODE=%d' % vm], 'mode': 'sym', 'filter': 'c13_valid.*', 'label': 'valid-ndebug-%d' % vm})
+    import props.common as pc
+    _o = pc.opts
+    pc.opts = lambda tier, a=None: dict(_o(tier, a), approx_ok=False)
     return simple('C13', tier, a, specs,
         'EXACT with symbolic constructor arguments: SO2(angle), SO2(re,im), SE2 (x,y,angle / x,y,re,im / translation+complex / Eigen isometry), SO3 (quaternion / x,y,z,w / roll-pitch-yaw incl. a gimbal configuration), SE3 (translation+quaternion / +SO3 / x,y,z,r,p,y / Eigen isometry through all four branches of the matrix->quaternion conversion), SE_2_3, SGal3: accessors return the supplied quantities, rotation() equals the documented matrix (Rz(yaw)Ry(pitch)Rx(roll)), is orthonormal with determinant 1, transform()/isometry() agree, feeding accessors back reproduces the element, cast<Scalar>() reproduces the transformation; normalize() yields exactly unit data for any non-zero input. Validation: in the assertion-enabled build every constructor path that raises is infeasible for data within the threshold, every non-raising path is infeasible for data outside it; with NDEBUG no path raises.',
         ['cast<> is exercised with the same (symbolic) scalar: the conversion code path, not the rounding, is checked', 'angle()-based round trips for angles in (-pi, pi]', 'validation thresholds: inside = |norm-1| <= eps/2, outside = |norm-1| >= eps; rotation data = symbolic positive scale times a fixed exact unit direction (the test depends on the norm only)'])
